@@ -15,7 +15,7 @@ CONSTANTS
   L,          \* maximal number of lines
   D,          \* maximal nesting depth
   E,          \* maximal number of elements
-  Kinds,      \* set of <<status, unwrap>> allowed, status \in {"R","P","S","SP","SF","U","T","F"} (S: skip on a ready marker, SP / SF: skip on a pending marker / time limit, NV / NN: marker with a valueless / without a name)
+  Kinds,      \* set of <<status, unwrap>> allowed, status \in {"R","P","S","SP","SF","U","T","F"} (S: skip on a ready marker, SP / SF: skip on a pending marker / time limit, NV / NN: marker with a valueless / without a name, UX / UP: near-miss tag names, XR / XT: the other evaluator's attribute)
   Unit,       \* indentation unit (sequence of characters)
   Base,       \* indentation (in units) of depth 0
   FreeInd,    \* set of indentations (in units) a code line / tag line may choose in addition to Base + depth
@@ -25,6 +25,8 @@ CONSTANTS
   Blank,      \* TRUE: empty lines allowed
   Suffix,     \* text appended to every code line (e.g. a multi-byte character), <<>> for none
   FlagVal,    \* spelling appended to the flag attributes skip / unwrap-block: <<>> (bare) or e.g. ='1' (valued flag)
+  ExtraAttr,  \* text appended to the attributes of every opening tag, <<>> for none: an attribute that must mean nothing,
+              \* e.g. " skipper", " Skip", " xunwrap-block", " names='a'"
   TagPad,     \* characters between the tag body and the end delimiter (and behind the start delimiter of closing tags stays
               \* none): <<>> or e.g. <<SP>> ("<tag a='b' >"), the README's padded style
   WideCode,   \* TRUE: code lines consist of the wide blanks U+3000 / U+00A0 only (no blank in the sense of the tool)
@@ -128,14 +130,19 @@ Str(s) == s
 TKinds == {"T1", "T2", "T3", "T4"}
 MKinds == {"M1", "M2", "M3", "M4"}
 KIdx(k) == IF k \in {"T1", "M1"} THEN 1 ELSE IF k \in {"T2", "M2"} THEN 2 ELSE IF k \in {"T3", "M3"} THEN 3 ELSE 4
-TagName(kd) == IF kd[1] \in {"R", "P", "S", "SP", "NV", "NN"} \cup MKinds THEN RM ELSE IF kd[1] \in {"T", "F", "SF"} \cup TKinds THEN TL ELSE <<120, 120>>   \* xx
+TagName(kd) == IF kd[1] \in {"R", "P", "S", "SP", "NV", "NN", "XR"} \cup MKinds THEN RM
+               ELSE IF kd[1] \in {"T", "F", "SF", "XT"} \cup TKinds THEN TL
+               ELSE IF kd[1] = "UX" THEN RM \o <<120>>            \* the registered name with a letter appended
+               ELSE IF kd[1] = "UP" THEN SubSeq(RM, 1, Len(RM) - 1) \o <<45>>   \* its proper prefix plus a dash
+               ELSE <<120, 120>>   \* xx
 FlagAttrs(kd) ==
      (IF kd[1] \in {"S", "SP", "SF"} THEN <<32, 115, 107, 105, 112>> \o FlagVal ELSE <<>>)
   \o (IF kd[2] THEN <<32, 117, 110, 119, 114, 97, 112, 45, 98, 108, 111, 99, 107>> \o FlagVal ELSE <<>>)
 CondAttr(kd) ==
          IF kd[1] = "NV" THEN <<32, 110, 97, 109, 101>>                                                        \* bare name
          ELSE IF kd[1] = "NN" THEN <<>>                                                                        \* no name at all
-         ELSE IF kd[1] \in {"R", "S", "U"} THEN <<32, 110, 97, 109, 101, 61>> \o Q \o <<97>> \o Q                 \* name='a'
+         ELSE IF kd[1] = "XR" THEN <<32, 116, 111, 61>> \o Q \o PastTo \o Q                                       \* marker tag, `to` only
+         ELSE IF kd[1] \in {"R", "S", "U", "UX", "UP", "XT"} THEN <<32, 110, 97, 109, 101, 61>> \o Q \o <<97>> \o Q                 \* name='a'
          ELSE IF kd[1] \in {"P", "SP"} THEN <<32, 110, 97, 109, 101, 61>> \o Q \o <<98>> \o Q             \* name='b'
          ELSE IF kd[1] = "T" THEN <<32, 116, 111, 61>> \o Q \o PastTo \o Q
          ELSE IF kd[1] \in TKinds THEN <<32, 116, 111, 61>> \o Q \o Tos[KIdx(kd[1])] \o Q
@@ -144,6 +151,7 @@ CondAttr(kd) ==
 OpenTag(kd, n) ==
   DS \o TagName(kd)
      \o (IF FlagsFirst THEN FlagAttrs(kd) \o CondAttr(kd) ELSE CondAttr(kd) \o FlagAttrs(kd))
+     \o ExtraAttr
      \o TagSep \o <<99, 61>> \o Q \o <<101>> \o Digits(n) \o Q                                                 \* c='e<n>'
      \o TagPad \o DE
 CloseTag(kd) == DS \o <<47>> \o TagName(kd) \o TagPad \o DE
